@@ -56,6 +56,14 @@ theorem member_scalar (id : Nat) (d m parentUsed : Bool) :
     (used (.scalar id d m) parentUsed false).1 = [(id, parentUsed && (d && m))] := by
   simp [used]
 
+/-- **The size of a random-size list is random in the call only when the list is** (after repair
+    2001b82): the size scalar sits under the list's own composite, declared random exactly when the
+    list has a random size — under a list that is not random in the call (a list inside a non-random
+    sub-object) it is a constant, so the list keeps its length -/
+theorem randsz_size_follows_list (sizeId : Nat) (randsz listUsed : Bool) :
+    (used (.scalar sizeId randsz randsz) listUsed false).1 = [(sizeId, listUsed && randsz)] := by
+  simp [used]
+
 /-- a sub-object is random in the call iff its parent is and it is declared random with
     rand_mode on -/
 theorem member_object (id : Nat) (d m parentUsed : Bool) (ch : Node) :
